@@ -8,26 +8,28 @@ namespace SkaModel.Props.C08
 
 open SkaModel SkaModel.Spec
 
-/-- naming no sample, or as many names as there are samples, is refused -/
-theorem T08_refuse_count (a : Arr) (del : List String) (h : del = [] ∨ del.length = a.names.length) :
+/-- naming no sample, or as many DISTINCT names as there are samples, is refused -/
+theorem T08_refuse_count (a : Arr) (del : List String)
+    (h : del = [] ∨ del.eraseDups.length = a.names.length) :
     a.deleteSamples del = none := by
   unfold Arr.deleteSamples
   rcases h with h | h <;> simp [h]
 
 /-! ### refusal, exactly -/
 
-/-- **T08_refuse.** `delete_samples` panics (no output) exactly when the list is empty, or has as many
-entries as the file has samples, or names a sample that is not in the file. Repeated entries count
-towards the length test: `["s1","s1"]` on a two-sample file is refused, `["s1","s1","s1"]` deletes
-`s1` (examples below). -/
+/-- **T08_refuse.** `delete_samples` panics (no output) exactly when the list is empty, or names as
+many DISTINCT samples as the file has, or names a sample that is not in the file. Repeated entries do
+not matter: `["s1","s1"]` on a two-sample file deletes `s1`, `["s1","s2","s2"]` on a two-sample file
+is refused like `["s1","s2"]` (examples below; `T08_dups_irrelevant`). -/
 theorem T08_refuse (a : Arr) (del : List String) :
-    a.deleteSamples del = none ↔ (del = [] ∨ del.length = a.names.length ∨ ∃ n ∈ del, n ∉ a.names) := by
+    a.deleteSamples del = none ↔
+      (del = [] ∨ del.eraseDups.length = a.names.length ∨ ∃ n ∈ del, n ∉ a.names) := by
   rw [deleteSamples_eq]
   by_cases h1 : del = []
   · simp [h1]
-  · by_cases h2 : del.length = a.names.length
+  · by_cases h2 : del.eraseDups.length = a.names.length
     · simp [h2]
-    · have hb : (del.isEmpty || del.length == a.names.length) = false := by
+    · have hb : (del.isEmpty || del.eraseDups.length == a.names.length) = false := by
         simp [h1, h2]
       simp only [hb, Bool.false_eq_true, if_false, h1, h2, false_or]
       by_cases h3 : (del.eraseDups.any (fun n => !a.names.contains n)) = true
@@ -44,6 +46,54 @@ theorem T08_refuse (a : Arr) (del : List String) :
           rw [List.any_eq_true]
           exact ⟨n, List.mem_eraseDups.mpr hn, by simpa using hc⟩
 
+/-- **T08_refuse_all.** naming all samples is refused, however often a name is repeated (and whatever
+else is named): on a file with pairwise distinct sample names, a list in which every sample occurs
+never deletes. -/
+theorem T08_refuse_all (a : Arr) (del : List String) (hn : a.names.Nodup)
+    (hall : ∀ n ∈ a.names, n ∈ del) : a.deleteSamples del = none := by
+  rw [T08_refuse]
+  by_cases h3 : ∃ n ∈ del, n ∉ a.names
+  · exact Or.inr (Or.inr h3)
+  · refine Or.inr (Or.inl ?_)
+    apply Dedup.length_eq_of_nodup_of_mem_iff (Dedup.eraseDups_nodup del) hn
+    intro n
+    rw [List.mem_eraseDups]
+    constructor
+    · intro hd
+      apply Classical.byContradiction
+      intro hc
+      exact h3 ⟨n, hd, hc⟩
+    · exact hall n
+
+/-- **T08_dups_irrelevant.** the outcome (refusal or the file written) depends on the SET of names
+given only: the list and its distinct entries behave alike. -/
+theorem T08_dups_irrelevant (a : Arr) (del : List String) :
+    a.deleteSamples del = a.deleteSamples del.eraseDups := by
+  unfold Arr.deleteSamples
+  rw [Dedup.eraseDups_idem, Dedup.eraseDups_isEmpty]
+
+/-- lists with the same members are treated alike (order and repetitions are irrelevant for refusal;
+for the result see `T08_dups_irrelevant`) -/
+theorem T08_refuse_set (a : Arr) (del del' : List String) (h : ∀ n, n ∈ del ↔ n ∈ del') :
+    a.deleteSamples del = none ↔ a.deleteSamples del' = none := by
+  have hl : del.eraseDups.length = del'.eraseDups.length :=
+    Dedup.length_eq_of_nodup_of_mem_iff (Dedup.eraseDups_nodup del) (Dedup.eraseDups_nodup del')
+      (fun n => by rw [List.mem_eraseDups, List.mem_eraseDups]; exact h n)
+  have he : del = [] ↔ del' = [] := by
+    constructor
+    · intro e; subst e
+      cases del' with
+      | nil => rfl
+      | cons x t => exact absurd ((h x).mpr (List.mem_cons_self ..)) (by simp)
+    · intro e; subst e
+      cases del with
+      | nil => rfl
+      | cons x t => exact absurd ((h x).mp (List.mem_cons_self ..)) (by simp)
+  rw [T08_refuse, T08_refuse, hl, he]
+  have hm : (∃ n ∈ del, n ∉ a.names) ↔ (∃ n ∈ del', n ∉ a.names) :=
+    ⟨fun ⟨n, h1, h2⟩ => ⟨n, (h n).mp h1, h2⟩, fun ⟨n, h1, h2⟩ => ⟨n, (h n).mpr h1, h2⟩⟩
+  rw [hm]
+
 /-! ### the effect -/
 
 /-- the kept positions: exactly the positions of the names not requested, in increasing order
@@ -54,13 +104,70 @@ theorem T08_keepIdx (names del : List String) (hn : names.Nodup) :
     ∧ (Table.keepIdx names del).map (fun i => names.getD i "") = names.filter (fun n => !del.contains n) :=
   ⟨mem_keepIdx names del hn, keepIdx_sorted names del hn, keepIdx_names names del hn⟩
 
-/-- **T08_delete.** deleting existing samples (not none, not all by count) succeeds; the result is the
+/-- for a file with pairwise distinct sample names and a list of sample names: as many distinct names
+as samples means that every sample is named -/
+theorem all_named_iff (names del : List String) (hn : names.Nodup) (h3 : ∀ n ∈ del, n ∈ names) :
+    del.eraseDups.length = names.length ↔ ∀ n ∈ names, n ∈ del := by
+  constructor
+  · intro hl n hmem
+    apply Classical.byContradiction
+    intro hnd
+    have hsub : del.eraseDups ⊆ names.erase n := by
+      intro x hx
+      have hx' : x ∈ del := List.mem_eraseDups.mp hx
+      have hne : x ≠ n := fun e => hnd (e ▸ hx')
+      exact (List.mem_erase_of_ne hne).mpr (h3 x hx')
+    have hle := (Dedup.eraseDups_nodup del).length_le_of_subset hsub
+    rw [List.length_erase_of_mem hmem] at hle
+    have hpos : 0 < names.length := List.length_pos_of_mem hmem
+    omega
+  · intro hall
+    apply Dedup.length_eq_of_nodup_of_mem_iff (Dedup.eraseDups_nodup del) hn
+    intro n
+    rw [List.mem_eraseDups]
+    exact ⟨h3 n, hall n⟩
+
+/-- **T08_accept.** on a file with pairwise distinct sample names `delete_samples` returns exactly
+when the list is not empty, names samples of the file only, and leaves some sample unnamed -/
+theorem T08_accept (a : Arr) (del : List String) (hn : a.names.Nodup) :
+    (∃ a', a.deleteSamples del = some a') ↔
+      (del ≠ [] ∧ (∀ n ∈ del, n ∈ a.names) ∧ ∃ n ∈ a.names, n ∉ del) := by
+  constructor
+  · rintro ⟨a', ha'⟩
+    have hnr : ¬ (del = [] ∨ del.eraseDups.length = a.names.length ∨ ∃ n ∈ del, n ∉ a.names) := by
+      intro h
+      rw [(T08_refuse a del).mpr h] at ha'
+      cases ha'
+    have h3 : ∀ n ∈ del, n ∈ a.names := by
+      intro n hd
+      apply Classical.byContradiction
+      intro hc
+      exact hnr (Or.inr (Or.inr ⟨n, hd, hc⟩))
+    refine ⟨fun e => hnr (Or.inl e), h3, ?_⟩
+    apply Classical.byContradiction
+    intro hc
+    apply hnr
+    refine Or.inr (Or.inl ((all_named_iff a.names del hn h3).mpr ?_))
+    intro n hmem
+    apply Classical.byContradiction
+    intro hnd
+    exact hc ⟨n, hmem, hnd⟩
+  · rintro ⟨h1, h3, n, hmem, hnd⟩
+    cases hd : a.deleteSamples del with
+    | some a' => exact ⟨a', rfl⟩
+    | none =>
+      rcases (T08_refuse a del).mp hd with h | h | ⟨m, hm, hc⟩
+      · exact absurd h h1
+      · exact absurd ((all_named_iff a.names del hn h3).mp h n hmem) hnd
+      · exact absurd (h3 m hm) hc
+
+/-- **T08_delete.** deleting existing samples (not none, not all: fewer distinct names than samples) succeeds; the result is the
 plain table with those columns removed and the all-gap rows dropped; it is well formed, every row is
 present somewhere, the stored counts are the true counts, and the remaining names are the names not
 requested, in file order. (`abs`, `WF`, `RowsPresent`, `counts` hold without `Nodup`; the names
 equation needs it — see `ex_dupNames`.) -/
 theorem T08_delete (a : Arr) (del : List String) (ha : a.WF) (hn : a.names.Nodup)
-    (h1 : del ≠ []) (h2 : del.length ≠ a.names.length) (h3 : ∀ n ∈ del, n ∈ a.names) :
+    (h1 : del ≠ []) (h2 : del.eraseDups.length ≠ a.names.length) (h3 : ∀ n ∈ del, n ∈ a.names) :
     ∃ a', a.deleteSamples del = some a'
       ∧ a'.abs = a.abs.deleteSamples del
       ∧ a'.WF ∧ a'.RowsPresent
@@ -232,10 +339,32 @@ example : Table.keepIdx exA.names ["s2"] = [0, 2] := by decide
 example : exA.deleteSamples [] = none := by decide
 example : exA.deleteSamples ["s1", "s2", "s3"] = none := by decide
 example : exA.deleteSamples ["s1", "zz"] = none := by decide
-/-- three entries on a three-sample file: refused although only one sample is named -/
-example : exA.deleteSamples ["s1", "s1", "s1"] = none := by decide
+/-- three entries on a three-sample file naming one sample: that sample is deleted (was refused when
+the entries were counted) -/
+example : (exA.deleteSamples ["s1", "s1", "s1"]).map (·.names) = some ["s2", "s3"] := by decide
 /-- two entries naming one sample: that sample is deleted -/
 example : (exA.deleteSamples ["s1", "s1"]).map (·.names) = some ["s2", "s3"] := by decide
+/-- all three samples named, one of them twice: refused (four entries used to pass the count test and
+delete every sample) -/
+example : exA.deleteSamples ["s1", "s2", "s3", "s3"] = none := by decide
+example : exA.deleteSamples ["s3", "s1", "s3", "s2", "s1"] = none := by decide
+/-- the same by the general theorem -/
+example : exA.deleteSamples ["s1", "s2", "s3", "s3"] = none :=
+  T08_refuse_all exA _ (by decide) (by decide)
+
+/-- a two-sample file (the first two columns of `exA`) -/
+def exA2 : Arr := { k := 3, rc := true, names := ["s1", "s2"], kmers := [5, 7, 9], variants := [[65, 67], [45, 71], [84, 84]], counts := [2, 1, 2], kBits := 64 }
+
+example : exA2.WF ∧ exA2.names.Nodup := by decide
+/-- `s1 s1` on a two-sample file now DELETES `s1` (two entries = two samples was refused) -/
+example : exA2.deleteSamples ["s1", "s1"] = some
+    { k := 3, rc := true, names := ["s2"], kmers := [5, 7, 9], variants := [[67], [71], [84]],
+      counts := [1, 1, 1], kBits := 64 } := by decide
+example : exA2.deleteSamples ["s1", "s1"] = exA2.deleteSamples ["s1"] := by decide
+/-- `s1 s2 s2` on a two-sample file is now REFUSED (three entries ≠ two samples used to delete both
+and write a file without samples) -/
+example : exA2.deleteSamples ["s1", "s2", "s2"] = none := by decide
+example : exA2.deleteSamples ["s1", "s2"] = none := by decide
 
 /-- with a repeated sample name only its first column is removed, so the remaining names are not
 `names.filter (· ∉ del)`; the table equation of `T08_delete_abs` still holds -/
